@@ -123,7 +123,7 @@ func cmdCheck(args []string) {
 	loadT := time.Since(t0)
 
 	timeout := 10000
-	baseTimeout := 2500
+	baseTimeout := 4000
 	if *tier == "thorough" {
 		timeout = 120000
 	}
@@ -311,6 +311,7 @@ func cmdCheck(args []string) {
 	}
 	present := map[string]bool{}
 	failing := map[string]*obRec{} // key -> first failing instance
+	newSafety := map[string]bool{} // refuted implicit obligations that did not exist at baseline time (edited code)
 	dischargedN, obligN := 0, 0
 	var unclaimedNow []string
 	solverMs := map[string]int64{}
@@ -340,6 +341,9 @@ func cmdCheck(args []string) {
 		// a new obligation (edited code): counts when it is refuted
 		if r.o.Status == "sat" && failing[r.key] == nil {
 			failing[r.key] = r
+			if isSafetyKind(r.o.Kind) {
+				newSafety[r.key] = true
+			}
 			obligN++
 		} else if r.o.Status == "unsat" {
 			obligN++
@@ -362,9 +366,23 @@ func cmdCheck(args []string) {
 	for _, m := range missingFns {
 		vanished = append(vanished, m+" (function under contract not found)")
 	}
+	var stale []string
 	for _, u := range unsupported {
 		// a function that was verified at baseline time and is now outside the supported subset
 		for _, bf := range base.Functions {
+			if strings.HasPrefix(u, bf+": ") && strings.Contains(u, "stale contract") {
+				// the contract mentions a name (local, parameter, field, loop) the current source no longer
+				// declares: the proof cannot be rebuilt, which says nothing about the property. Undecided, not a violation.
+				stale = append(stale, u)
+				keep := vanished[:0]
+				for _, v := range vanished {
+					if !strings.HasPrefix(v, bf+"/") {
+						keep = append(keep, v)
+					}
+				}
+				vanished = keep
+				continue
+			}
 			if strings.HasPrefix(u, bf+": ") {
 				hadClaims := false
 				for _, k := range base.Discharged {
@@ -380,6 +398,9 @@ func cmdCheck(args []string) {
 	}
 
 	// report
+	for _, u := range stale {
+		fmt.Printf("STALE-CONTRACT property=%s %s (undecided on this tree: update the contract)\n", *prop, u)
+	}
 	violations := 0
 	replayDir := filepath.Join(*root, "replays", *prop)
 	os.MkdirAll(replayDir, 0o755)
@@ -396,9 +417,16 @@ func cmdCheck(args []string) {
 			knownHit = append(knownHit, k)
 			continue
 		}
-		violations++
 		rp := filepath.Join(replayDir, sanitize(k)+".json")
 		reproduced := P.writeReplay(rp, *prop, r.o, r.vc, claimed[k], *repo)
+		if newSafety[k] && !reproduced {
+			// an implicit obligation of edited code, refuted only in the abstract (typically a helper precondition
+			// that no contract states yet): without a failing input on the real code it is undecided, not a violation
+			unclaimedNow = append(unclaimedNow, k+" (new, refuted in the abstract, no failing input)")
+			obligN--
+			continue
+		}
+		violations++
 		suffix := ""
 		if !reproduced {
 			suffix = " no-failing-input-found"
@@ -489,6 +517,7 @@ func cmdCheck(args []string) {
 			"bounded":                  cfg.Bounded,
 			"frame_obligations":        frameCount,
 			"known_findings_hit":       knownHit,
+			"stale_contracts":          stale,
 			"solver_ms":                solverMs,
 			"solver_discharged":        solverCount,
 			"samples":                  samples,
